@@ -51,19 +51,51 @@ Definition in_range (h : N) (r : N * N) : bool := (fst r <=? h) && (h <=? snd r)
 Definition cover_count (h : N) (rs : list (N * N)) : nat :=
   length (filter (in_range h) rs).
 
+(** ** The repaired loop ([fix:] commit in /repo): the next multiple of [fetch] is used only when it
+    fits into uint64 and lies below [end]; the loop stops as soon as a range ends at [end], so
+    [begin] never wraps around.  uint64 arithmetic explicit as above. *)
+Definition range_end_fx (fetch end_ startNo : N) : N :=
+  let n := wrap64 (startNo + 1) in
+  if n =? 0 then end_
+  else let next := wrap64 (n * fetch) in
+       if (next / fetch =? n) && (next <? end_) then next else end_.
+
+Fixpoint ranges_loop_fx (fuel : nat) (fetch begin end_ startNo : N) : option (list (N * N)) :=
+  if end_ <? begin then Some []
+  else match fuel with
+       | O => None
+       | S k =>
+           let re := range_end_fx fetch end_ startNo in
+           if re =? end_ then Some [(begin, re)]
+           else match ranges_loop_fx k fetch (wrap64 (re + 1)) end_ (wrap64 (startNo + 1)) with
+                | Some l => Some ((begin, re) :: l)
+                | None => None
+                end
+       end.
+
+Definition calc_ranges_fx (fuel : nat) (fetch begin end_ : N) : ranges_result :=
+  if end_ <? begin then RErr
+  else match ranges_loop_fx fuel fetch begin end_ (begin / fetch) with
+       | Some l => ROk l
+       | None => ROutOfFuel
+       end.
+
+(** [wrap = true]: the loop as it was (listed finding C20-ranges-overflow); [false]: the repaired loop *)
+Definition calc_ranges_d (wrap : bool) := if wrap then calc_ranges else calc_ranges_fx.
+
 (** correspondence judge: [obs] is what the implementation returned
     (None = error, Some rs = ranges); fuel is supplied by the harness *)
 Definition rr_eqb (a : N * N) (b : N * N) : bool := (fst a =? fst b) && (snd a =? snd b).
 
-Definition judge_ranges (c : (N * N * N) * nat * option (list (N * N))) : verdict :=
-  let '(fetch, b, e, fuel, obs) := c in
+Definition judge_ranges (c : bool * (N * N * N) * nat * option (list (N * N))) : verdict :=
+  let '(wrap, (fetch, b, e), fuel, obs) := c in
   (* the property predicate on the implementation's own answer *)
   let p_impl := match obs with
                 | None => e <? b                 (* refusing is right exactly when begin > end *)
                 | Some o => (b <=? e) && chain_b b e o
                 end in
   if negb p_impl then V_propfalse 0
-  else match calc_ranges fuel fetch b e, obs with
+  else match calc_ranges_d wrap fuel fetch b e, obs with
        | RErr, None => V_ok
        | ROk m, Some o =>
            match first_diff rr_eqb m o 0 with
